@@ -1320,6 +1320,46 @@ def run_e2e(case, res):
                           {'got': float(got), 'exp': exp,
                            'per_timepoint': [tp[int(aid)] for tp in tp_power]})
         hk.wrap(Orificing, '_get_power', post=power_post)
+
+        # the parametric table kept for every assembly type holds the
+        # pressure drops of the single-assembly runs made FOR THAT TYPE
+        par = {'on': False, 'runs': []}
+
+        def par_pre(args, kwargs):
+            par['on'] = True
+            par['runs'] = []
+
+        def sweep_post(args, kwargs, out, tok):
+            if par['on']:
+                a = args[0].assemblies[0]
+                par['runs'].append((a.name, float(a.flow_rate),
+                                    float(a.pressure_drop)))
+
+        def par_post(args, kwargs, out, tok):
+            par['on'] = False
+            o = args[0]
+            if not par['runs']:
+                res.count('parametric_tables_recycled')
+                return
+            names = list(o.orifice_input['assemblies_to_group'])
+            for i, nm in enumerate(names):
+                tab = np.asarray(o._parametric['data'][i], dtype=float)
+                bad = 0
+                for row in tab:
+                    hit = [dp for (n_, m_, dp) in par['runs'] if n_ == nm
+                           and abs(m_ - row[2]) <= 1e-12 * abs(row[2])]
+                    if not hit or all(abs(dp - row[3]) > 1e-12 * abs(dp)
+                                      for dp in hit):
+                        bad += 1
+                res.check('T2_parametric_table_is_own_types_runs', bad == 0,
+                          '%d of %d rows of the parametric table kept for '
+                          'assembly type "%s" are not the (flow, pressure '
+                          'drop) of a single-assembly run made for that type'
+                          % (bad, len(tab), nm),
+                          dict(key, n_types=len(names)))
+        import dassh as _d
+        hk.wrap(Orificing, 'run_parametric', pre=par_pre, post=par_post)
+        hk.wrap(_d.Reactor, 'temperature_sweep', post=sweep_post)
         if limit_mode == 'probe':
             # set a pressure-drop limit once the parametric tables exist:
             # a fraction of the pressure drop at the hottest nominal flow
